@@ -36,10 +36,12 @@ CHECKS = {
 }
 
 CHECKS.update({
-    "C06": dict(category="translation_validation", technique="bit-exact correspondence of floor/ceil/nint/frac/mod/to_int with the Lean model + exact rational decision of the definitions (theorems for the integer-part functions in progress)",
-                text="The real libmpf functions and the public API (mp.floor/ceil/nint/frac, int(), %, fmod; int/float/mpf/mpc operands) are compared bit for bit with the Lean model of the same functions, "
-                     "and every result is decided exactly (Fractions) against the mathematical definition in the property text and against correct rounding.",
-                note=TB + "No theorem about mpf_round_int/mpf_mod yet: the model of these functions is validated by correspondence and the property is decided per input; their callees (normalize, add/sub) are proved."),
+    "C06": dict(category="proof", technique="Lean 4 theorems: floor/ceil/nint/frac/int()/% of the model equal the mathematical floor, ceiling, round-half-even, fractional part, truncation and floored remainder (correctly rounded) + bit-exact correspondence + exact rational decision",
+                text="Theorems (all finite canonical inputs, mantissas of any length, any exponent, every precision and mode): mpf_floor/mpf_ceil return the integer floor/ceiling (exact at prec 0, else its correct rounding); mpf_nint returns the nearest integer with ties to even "
+                     "(uniqueness proved); mpf_frac is the correctly rounded x - floor(x), whose exact value is in [0,1); to_int truncates toward zero; mpf_mod is the correctly rounded x - y*floor(x/y) for every nonzero y (shortcut paths included), "
+                     "which has the sign of y, magnitude below |y| and differs from x by an integer multiple of y; x % 0 raises; complex versions act componentwise. "
+                     "Key lemma: rounding a number with exactly p integer bits to p bits IS rounding to an integer. The real libmpf functions and the public API are compared bit for bit with the model and decided exactly.",
+                note=TB + "API glue (mp.floor, int(), %, fmod with mixed operand types) is sampled."),
     "C24": dict(category="proof", technique="AST->Lean loop-skeleton translator regenerated from /repo on every run + Lean termination theorems per loop class + dynamic step-budget confirmation",
                 text="Every while-loop of /repo/mpmath is classified by a translator that runs on the current tree; for the classes counter/countdown/halving/strip/euclid/fixdecay/giant-steps/tolOrDiverge/divGuard/bounded/retry "
                      "Lean theorems give termination with explicit bounds, and each extracted loop carries a generated, kernel-checked obligation (124 of 229). Loops that exit only on a tolerance (105) are OPEN obligations, "
